@@ -5,6 +5,7 @@ import VivModel.Model.Artifact
 ```
 data <id> json|table|unser|zerorow|badframe [<qcols> <rows> <cols> <isEmpty> <isSeries>]   -- declare a value (table: what filters see)
 op write k=<key> <id|none> | op load k=<key> | op remove k=<key> | op replace k=<key> <id|none> | op clear
+op mutate k=<key> <id> -- the caller mutates the object `load` handed out, in place, into the declared value <id>
 op reopen <terms>      -- the acting artifact becomes Artifact(path, filter_terms=terms)
 op switch <terms>      -- two live artifacts on one file: the acting one is parked and the parked one (or, the first
                        -- time, a new Artifact(path, filter_terms=terms)) acts
@@ -136,6 +137,33 @@ def step (s : St) : List String → St × String
     match parseKey k with
     | some k => doOp s (.remove k)
     | none => (s, "bad-op")
+  | ["op", "mutate", k, d] =>
+    -- the caller loads k and mutates the returned object in place; it now equals the declared value d
+    match parseKey k, dataArg s d with
+    | some k, some (some d) =>
+      match nodeOf d with
+      | none => (s, "bad-op")
+      | some n => let (a, o) := mutateLoaded s.fa.art k n; (setArt s a, showOut s o)
+    | _, _ => (s, "bad-op")
+  | ["op", "restore", k, d] =>
+    -- x = art.load(k); (the caller may mutate x in place); art.replace(k, x): x now denotes the declared value d
+    match parseKey k, dataArg s d with
+    | some k, some (some d) =>
+      match load s.fa.art k with
+      | (a1, .data _) => let (a2, o) := replace a1 k (some d); (setArt s a2, showOut s o)
+      | (a1, o) => (setArt s a1, showOut s o)
+    | _, _ => (s, "bad-op")
+  | ["op", "mutkeys", how] =>
+    -- `ks = art.keys`; the caller edits ks in place
+    let e : Option KeyEdit := match how with
+      | "remove-ks" => some .removeKs
+      | "reverse" => some .reverse
+      | "clear" => some .clear
+      | "ghost" => some .append
+      | _ => none
+    match e with
+    | none => (s, "bad-op")
+    | some e => let (fa, o) := s.fa.step (.editReturnedKeys e); ({ s with fa := fa }, showOut s o)
   | ["op", "clear"] => doOp s .clearCache
   | ["op", "reopen", terms] =>
     match parseTerms terms with
